@@ -54,7 +54,74 @@ pub fn direct_qlong(prop: &str, seed: u64, max_n: usize, rep: &mut Report) {
             }
         }
     }
-    rep.sample(json!({"family": "qlong", "p": ps, "n": max_n, "shapes": 13}));
+    // streams of millions of observations (position gaps beyond 2^21, whose products of three no
+    // longer fit 64-bit integers), compared at every 4096th step
+    let very_long = if max_n >= 50_000 { 16_000_000 } else { 8_000_000 };
+    for &p in &[0.5, 0.9375, 1.0, 0.0625] {
+        rep.behaviours += 1;
+        let label = json!({"shape": "uniform, very long", "p": p, "n": very_long, "seed": seed});
+        rep.nontrivial.insert(hash_str(&label.to_string()));
+        let r = std::panic::catch_unwind(std::panic::AssertUnwindSafe(|| run_sparse(prop, p, very_long, seed, &mut *rep)));
+        if r.is_err() {
+            rep.violation(json!({"property": prop, "family": "qlong", "type": "Quantile", "embedding": "uniform, very long", "history": label,
+                "accessor": "panic", "what": "the code under test panicked", "signature": format!("{}|Quantile|panic", prop)}));
+        }
+    }
+    rep.sample(json!({"family": "qlong", "p": ps, "n": max_n, "shapes": 13, "very_long": very_long}));
+}
+
+fn run_sparse(prop: &str, p: f64, n: usize, seed: u64, rep: &mut Report) {
+    rep.replays += 1;
+    let mut rng = Xoshiro256PlusPlus::seed_from_u64(seed ^ 0x5eed ^ p.to_bits());
+    let mut qt = Quantile::new(p);
+    let mut rf = QRef::new(p);
+    let shape = "uniform, very long";
+    for i in 0..n {
+        let x = rng.random::<f64>() * 100.0 - 50.0;
+        qt.add(x);
+        let mg = rf.add(x);
+        let cnt = i + 1;
+        if cnt < 5 {
+            continue;
+        }
+        if mg.0 < 1e-9 {
+            rep.bump("very_long_streams_rounding_sensitive_from_some_step", 1);
+            rep.bump("steps_decided", (cnt - 5) as u64);
+            return;
+        }
+        if cnt % 4096 != 0 && cnt != n {
+            continue;
+        }
+        let tol = (64.0 * cnt as f64 * U).max(1e-10) * 50.0;
+        let fail = |rep: &mut Report, acc: &str, what: String| {
+            rep.violation(json!({"property": prop, "family": "qlong", "type": "Quantile", "embedding": shape,
+                "history": {"shape": shape, "p": p, "seed": seed, "observations": cnt},
+                "accessor": acc, "what": what, "signature": format!("{}|Quantile|{}", prop, acc)}));
+        };
+        rep.evaluations += 1;
+        let got = qt.quantile();
+        if !((got - rf.quantile_big()).abs() <= tol) {
+            fail(rep, "quantile", format!("after {} observations quantile() = {} but P-square (Quantile.tla's Step in f64) gives {} (tolerance {:e})", cnt, fmt_f(got), fmt_f(rf.quantile_big()), tol));
+            return;
+        }
+        if let Some(m) = markers(&qt) {
+            rep.evaluations += 15;
+            if m.n != rf.n {
+                fail(rep, "positions", format!("after {} observations marker positions {:?} but P-square prescribes {:?}", cnt, m.n, rf.n));
+                return;
+            }
+            if (0..5).any(|j| m.m[j] != rf.m[j]) {
+                fail(rep, "desired positions", format!("after {} observations desired positions {:?} but P-square prescribes {:?}", cnt, m.m, rf.m));
+                return;
+            }
+            if let Some(j) = (0..5).find(|&j| !((m.q[j] - rf.q[j]).abs() <= tol)) {
+                fail(rep, "heights", format!("after {} observations marker {} has height {} but P-square prescribes {} (tolerance {:e})", cnt, j + 1, fmt_f(m.q[j]), fmt_f(rf.q[j]), tol));
+                return;
+            }
+        }
+    }
+    rep.bump("very_long_streams_decided_to_the_end", 1);
+    rep.bump("steps_decided", (n.saturating_sub(4)) as u64);
 }
 
 fn run(prop: &str, shape: &str, p: f64, xs: &[f64], seed: u64, rep: &mut Report) {
